@@ -356,3 +356,14 @@ package server
 //@ ensures followerHeadEntryId.Term > lc.leaderElectionHeadEntryId.Term ==> err != nil && ghost(truncates, lc.rpcClient) == old(ghost(truncates, lc.rpcClient))
 //@ ensures followerHeadEntryId.Term == lc.leaderElectionHeadEntryId.Term && followerHeadEntryId.Offset <= lc.leaderElectionHeadEntryId.Offset ==> err == nil && res == followerHeadEntryId && ghost(truncates, lc.rpcClient) == old(ghost(truncates, lc.rpcClient))
 //@ modifies ghost(truncates, lc.rpcClient), ghost(lastTruncHead, lc.rpcClient)
+
+// The write stream of one client is handled strictly in arrival order: each request is
+// handed to the leader controller before the next one is read, and no goroutine is
+// started here. (The client matches responses to requests by position, and the leader
+// assigns offsets in call order.) Structural obligation only: `sequential`.
+//
+//@ func procesWriteStream
+//@ property C08
+//@ sequential
+//@ requires stream != nil && lc != nil
+//@ modifies *
